@@ -9,6 +9,7 @@ import (
 
 	"reflect"
 	"regexp"
+	"unicode/utf8"
 
 	"github.com/lyraproj/pcore/px"
 	"github.com/lyraproj/pcore/utils"
@@ -200,12 +201,16 @@ func (t *stringType) IsAssignable(o px.Type, g px.Guard) bool {
 func (t *scStringType) IsAssignable(o px.Type, g px.Guard) bool {
 	switch o := o.(type) {
 	case *vcStringType:
-		return t.size.IsInstance3(len(o.value))
+		return t.size.IsInstance3(utf8.RuneCountInString(o.value))
 	case *scStringType:
 		return t.size.IsAssignable(o.size, g)
 	case *EnumType:
+		if len(o.values) == 0 {
+			// The default Enum matches all strings
+			return false
+		}
 		for _, str := range o.values {
-			if !t.size.IsInstance3(len(string(str))) {
+			if !t.size.IsInstance3(utf8.RuneCountInString(str)) {
 				return false
 			}
 		}
@@ -228,7 +233,7 @@ func (t *stringType) IsInstance(o px.Value, g px.Guard) bool {
 
 func (t *scStringType) IsInstance(o px.Value, g px.Guard) bool {
 	str, ok := o.(stringValue)
-	return ok && t.size.IsInstance3(len(string(str)))
+	return ok && t.size.IsInstance3(utf8.RuneCountInString(string(str)))
 }
 
 func (t *vcStringType) IsInstance(o px.Value, g px.Guard) bool {
